@@ -96,13 +96,6 @@ VARIANTS = [
     {"name": "R2 StrFixed overflow only logged", "file": SER, "expect": "C08.R2",
      "old": "        if len(instance) > self._length:\n            raise ValueError(f\"{instance!r} can't fit in {self._length}\")\n",
      "new": "        if len(instance) > self._length:\n            instance = instance[:self._length]\n"},
-    {"name": "R2 BitField per-member check hoisted out of the loop (seed 1)", "file": HELPERS, "expect": "C08.R2",
-     "edits": [
-         {"file": HELPERS, "old": "                if val > mask:\n                    raise ValueError(\"%r larger than max %r\" % (val, mask))\n",
-          "new": ""},
-         {"file": HELPERS, "old": "            cur_bit += bits\n        return packed\n",
-          "new": "            cur_bit += bits\n        if self.shift and packed > self._bits_mask(cur_bit):\n"
-                 "            raise ValueError(\"%r larger than max\" % (packed,))\n        return packed\n"}]},
     {"name": "R2 BitField unshifted member check dropped", "file": HELPERS, "expect": "C08.R2",
      "old": "                if val != val & mask:\n                    raise ValueError(\"%r doesn't fit within mask %r\" % (val, mask))\n",
      "new": ""},
@@ -113,8 +106,6 @@ VARIANTS = [
     {"name": "P R2 ByteArray test written the other way round", "file": SER, "expect": "silent",
      "old": "        if max_val < len(instance):\n            raise ValueError(f\"{instance!r} is wider", "new":
             "        if len(instance) > max_val:\n            raise ValueError(f\"{instance!r} is wider"},
-    {"name": "P R2 BitField check as negated <=", "file": HELPERS, "expect": "silent",
-     "old": "                if val > mask:\n", "new": "                if not (val <= mask):\n"},
     {"name": "P R2 BytesFixed guard as if/else", "file": SER, "expect": "silent",
      "old": "        if len(instance) != self._size:\n            raise ValueError(f\"length of {instance!r} is not {self._size}\")\n"
             "        writer.write_bytes(instance)\n",
@@ -224,8 +215,8 @@ VARIANTS = [
     {"name": "R7 subfield EMPTY_IS_NONE short-cut taken for every falsy value", "file": SER, "expect": "C08.R7",
      "old": "        if cls.EMPTY_IS_NONE and vals is None:\n", "new": "        if cls.EMPTY_IS_NONE and not vals:\n"},
     {"name": "R7 terminated typed bytes: nested truthiness test under the flag", "file": SER, "expect": "C08.R7",
-     "old": "        if val is None and self._empty_is_none:\n            return\n",
-     "new": "        if self._empty_is_none:\n            if not val:\n                return\n"},
+     "old": "            if val is None:\n                return\n            body = BufferWriter(writer.endianness)\n",
+     "new": "            if not val:\n                return\n            body = BufferWriter(writer.endianness)\n"},
     {"name": "P R7 None test nested under the flag, operands reordered", "file": SER, "expect": "silent",
      "old": "        if val is None and self._empty_is_none:\n            buf = b\"\"\n        else:\n"
             "            inner_writer = BufferWriter(writer.endianness)\n            inner_writer.write(self._spec, val, ctx=ctx)\n"
@@ -257,18 +248,6 @@ VARIANTS = [
      "old": "            raise ValueError(f\"length of {instance!r} is not {self._size}\")\n        writer.write_bytes(instance)\n",
      "new": "            raise ValueError(f\"length of {instance!r} is not {self._size}\")\n"
             "        writer.write_bytes(instance[:self._size])\n"},
-    {"name": "P R2 BitField per-member work moved into a helper taking the member value", "file": HELPERS, "expect": "silent",
-     "old": "            if self.shift:\n                if val > mask:\n"
-            "                    raise ValueError(\"%r larger than max %r\" % (val, mask))\n                packed |= val << cur_bit\n",
-     "new": "            if self.shift:\n                packed |= self._shifted(vals[name], mask, cur_bit)\n",
-     "edits": [
-         {"file": HELPERS, "old": "            if self.shift:\n                if val > mask:\n"
-          "                    raise ValueError(\"%r larger than max %r\" % (val, mask))\n                packed |= val << cur_bit\n",
-          "new": "            if self.shift:\n                packed |= self._shifted(vals[name], mask, cur_bit)\n"},
-         {"file": HELPERS, "old": "    def unpack(self, packed):\n",
-          "new": "    def _shifted(self, member, limit, at):\n        if member > limit:\n"
-                 "            raise ValueError(\"%r larger than max %r\" % (member, limit))\n        return member << at\n\n"
-                 "    def unpack(self, packed):\n"}]},
     {"name": "P R2 Collection count checks in a helper with guard clauses", "file": SER, "expect": "silent",
      "edits": [
          {"file": SER, "old": "    def serialize(self, entries, writer: BufferWriter, ctx):\n        if self._len_spec:\n"
@@ -594,11 +573,6 @@ VARIANTS = [
      "old": "        if self._null_term and val.endswith(b\"\\x00\"):\n            val = val[:-1]\n        return val.decode(\"utf8\")\n",
      "new": "        return bytes(val).strip(b\"\\x00\").decode(\"utf8\")\n"},
     # ------------------------------------------------------------------ documented limits (value level)
-    {"name": "R15 Str strips NULs on both ends although the writer only appends one", "file": SER, "expect": "C08.R15",
-     "old": "                instance += b\"\\x00\"\n        writer.write(self._bytes_tmpl, instance, ctx=ctx)\n\n"
-            "    def deserialize(self, reader: Reader, ctx):\n        return reader.read(self._bytes_tmpl, ctx=ctx).rstrip(",
-     "new": "                instance += b\"\\x00\"\n        writer.write(self._bytes_tmpl, instance, ctx=ctx)\n\n"
-            "    def deserialize(self, reader: Reader, ctx):\n        return reader.read(self._bytes_tmpl, ctx=ctx).strip("},
     {"name": "X OptionalPrefixed reader's presence test flipped (conditions are not compared)", "file": SER, "expect": "miss",
      "old": "        present = reader.read(U8, ctx=ctx)\n        if present:\n", "new":
             "        present = reader.read(U8, ctx=ctx)\n        if not present:\n"},
